@@ -26,7 +26,7 @@ def assigned_names(stmts):
 
 
 class LoopSpec:
-    def __init__(self, name, inv, variant=None, havoc=None, modifies=None, ghost=None, params=None):
+    def __init__(self, name, inv, variant=None, havoc=None, modifies=None, ghost=None, params=None, step=None):
         self.name = name
         self.inv = inv  # qualname of the invariant function (spec module); called with the named locals
         self.variant = variant  # qualname of variant function or None (for-range loops have a built-in variant)
@@ -34,6 +34,7 @@ class LoopSpec:
         self.modifies = modifies  # callable(I, st) -> set of oids the body may change
         self.ghost = ghost  # callable(I, st) -> dict of entry-time values (old state)
         self.params = params
+        self.step = step  # qualname: per-iteration postcondition evaluated after the body (may use g[...] set by havoc)
 
     # -------------------------------------------------------------- helpers
     def _call_spec(self, I, qual, st):
@@ -149,6 +150,9 @@ class LoopSpec:
                                 s3.env[stmt.target.id] = kcur + 1
                             for t, s4 in self._eval_bool(I, self.inv, s3.fork()):
                                 s3.side.append((f"loop_inv_preserved:{self.name}", list(s4.pc), t))
+                            if self.step is not None:
+                                for t, s4 in self._eval_bool(I, self.step, s3.fork()):
+                                    s3.side.append((f"loop_step:{self.name}", list(s4.pc), t))
                             if self.variant is not None:
                                 va = self._call_spec(I, self.variant, s3.fork())
                                 for k5, v5, s5 in va:
